@@ -268,4 +268,138 @@ theorem skipSpace_comment (t : Bytes) (p : Pos) (body rest : Bytes)
     rw [if_pos (by simp)]
     exact hr'
 
+
+/-- the cursor `skipLoop` returns does not depend on the `commentEnd` it is started with, and the
+    `commentEnd` it returns is either the one it was started with or the end of a comment it skipped -/
+theorem skipLoop_ce_track (t : Bytes) : ∀ (f : Nat) (inC : Bool) (p : Pos) (ce ce' : Option Pos) (r : Pos × Option Pos),
+    skipLoop t f inC p ce = .ok r →
+    ∃ y, skipLoop t f inC p ce' = .ok (r.1, y) ∧ ((r.2 = ce ∧ y = ce') ∨ (r.2 = y ∧ ∃ c, y = some c)) := by
+  intro f
+  induction f with
+  | zero => intro inC p ce ce' r h; cases inC <;> simp [skipLoop] at h
+  | succ f ih =>
+    intro inC p ce ce' r h
+    cases inC with
+    | false =>
+      rw [skipLoop] at h ⊢
+      obtain ⟨c, hc, h⟩ := bind_eq_ok h
+      rw [hc]; simp only [Res.ok_bind]
+      by_cases h13 : c = 13
+      · rw [if_pos h13] at h ⊢
+        obtain ⟨d, hd, h⟩ := bind_eq_ok h
+        rw [hd]; simp only [Res.ok_bind]
+        exact ih _ _ _ _ _ h
+      rw [if_neg h13] at h ⊢
+      by_cases h10 : c = 10
+      · rw [if_pos h10] at h ⊢; exact ih _ _ _ _ _ h
+      rw [if_neg h10] at h ⊢
+      by_cases h60 : c = 60
+      · rw [if_pos h60] at h ⊢
+        obtain ⟨s, hs, h⟩ := bind_eq_ok h
+        rw [hs]; simp only [Res.ok_bind]
+        by_cases hcm : s.take 3 = [33, 45, 45]
+        · rw [if_pos hcm] at h ⊢; exact ih _ _ _ _ _ h
+        · rw [if_neg hcm] at h ⊢; cases h; exact ⟨_, rfl, Or.inl ⟨rfl, rfl⟩⟩
+      rw [if_neg h60] at h ⊢
+      by_cases hsp : isSpace c = true
+      · rw [if_pos hsp] at h ⊢; exact ih _ _ _ _ _ h
+      · rw [if_neg hsp] at h ⊢; cases h; exact ⟨_, rfl, Or.inl ⟨rfl, rfl⟩⟩
+    | true =>
+      rw [skipLoop] at h ⊢
+      obtain ⟨s, hs, h⟩ := bind_eq_ok h
+      rw [hs]; simp only [Res.ok_bind]
+      cases hidx : idxOf isCommentScanStop s with
+      | none => rw [hidx] at h; simp only at h ⊢; cases h; exact ⟨_, rfl, Or.inr ⟨rfl, _, rfl⟩⟩
+      | some k =>
+        rw [hidx] at h
+        simp only at h ⊢
+        obtain ⟨c, hc, h⟩ := bind_eq_ok h
+        rw [hc]; simp only [Res.ok_bind]
+        by_cases h13 : c = 13
+        · rw [if_pos h13] at h ⊢
+          obtain ⟨d, hd, h⟩ := bind_eq_ok h
+          rw [hd]; simp only [Res.ok_bind]
+          exact ih _ _ _ _ _ h
+        rw [if_neg h13] at h ⊢
+        by_cases h10 : c = 10
+        · rw [if_pos h10] at h ⊢; exact ih _ _ _ _ _ h
+        rw [if_neg h10] at h ⊢
+        obtain ⟨s2, hs2, h⟩ := bind_eq_ok h
+        rw [hs2]; simp only [Res.ok_bind]
+        by_cases hcl : s2.take 2 = [45, 62]
+        · rw [if_pos hcl] at h ⊢
+          obtain ⟨y, hy, hcase⟩ := ih _ _ _ (some ⟨p.line, p.pos + k + 3, p.ls⟩) _ h
+          refine ⟨y, hy, Or.inr ?_⟩
+          rcases hcase with ⟨e1, e2⟩ | hr
+          · exact ⟨by rw [e1, e2], _, e2⟩
+          · exact hr
+        · rw [if_neg hcl] at h ⊢; exact ih _ _ _ _ _ h
+
+theorem skipLoop_ce_irrel (t : Bytes) (f : Nat) (inC : Bool) (p : Pos) (ce ce' : Option Pos) (r : Pos × Option Pos)
+    (h : skipLoop t f inC p ce = .ok r) : ∃ y, skipLoop t f inC p ce' = .ok (r.1, y) := by
+  obtain ⟨y, hy, _⟩ := skipLoop_ce_track t f inC p ce ce' r h
+  exact ⟨y, hy⟩
+
+/-- the token and the cursor behind it, without `commentEnd` -/
+def tokenOnly (r : Res (Token × Pos × Option Pos)) : Res (Token × Pos) := r.bind fun x => .ok (x.1, x.2.1)
+
+/-- in front of a complete comment `readToken` delivers the token that follows the comment -/
+theorem readToken_comment (t : Bytes) (p : Pos) (body rest : Bytes)
+    (h : t.drop p.pos = [60, 33, 45, 45] ++ (body ++ ([45, 45, 62] ++ rest))) (hb : commentBody body) :
+    ∃ q : Pos, q.pos = p.pos + 4 + body.length + 3 ∧ (PosOK t p → PosOK t q) ∧
+      tokenOnly (readToken t p) = tokenOnly (readToken t q) := by
+  obtain ⟨q, hq1, hq2, hq3⟩ := skipSpace_comment t p body rest h hb
+  refine ⟨q, hq1, hq2, ?_⟩
+  have hlen : q.pos ≤ t.length := by
+    have h0 : t.drop p.pos = ([60, 33, 45, 45] ++ (body ++ [45, 45, 62])) ++ rest := by rw [h]; simp
+    have hple : p.pos ≤ t.length := by
+      by_cases hp : p.pos ≤ t.length
+      · exact hp
+      · have : t.drop p.pos = [] := List.drop_eq_nil_of_le (by omega)
+        rw [this] at h; simp at h
+    have := drop_le h0 hple
+    simp at this
+    omega
+  obtain ⟨r, hr, _⟩ := skipLoop_ok t (t.length + 2) false q (some q) hlen (by omega)
+  obtain ⟨y, hy⟩ := skipLoop_ce_irrel t _ false q (some q) none r hr
+  have hp : skipSpace t p = .ok r := by rw [hq3, hr]
+  have hq : skipSpace t q = .ok (r.1, y) := hy
+  unfold readToken tokenOnly
+  rw [hp, hq]; simp only [Res.ok_bind]
+  cases tokenAt t r.1 <;> rfl
+
+/-- element content: in front of a complete comment the content loop does what it does behind it —
+    whatever follows (a child element, the end tag, or text, which then starts behind the comment) -/
+theorem parseContent_comment (t : Bytes) (p : Pos) (body rest : Bytes) (f : Nat)
+    (h : t.drop p.pos = [60, 33, 45, 45] ++ (body ++ ([45, 45, 62] ++ rest))) (hb : commentBody body) :
+    ∃ q : Pos, q.pos = p.pos + 4 + body.length + 3 ∧ (PosOK t p → PosOK t q) ∧
+      parseContent t (f + 1) p = parseContent t (f + 1) q := by
+  obtain ⟨q, hq1, hq2, hq3⟩ := skipSpace_comment t p body rest h hb
+  refine ⟨q, hq1, hq2, ?_⟩
+  have hlen : q.pos ≤ t.length := by
+    have h0 : t.drop p.pos = ([60, 33, 45, 45] ++ (body ++ [45, 45, 62])) ++ rest := by rw [h]; simp
+    have hple : p.pos ≤ t.length := by
+      by_cases hp : p.pos ≤ t.length
+      · exact hp
+      · have : t.drop p.pos = [] := List.drop_eq_nil_of_le (by omega)
+        rw [this] at h; simp at h
+    have := drop_le h0 hple
+    simp at this
+    omega
+  obtain ⟨r, hr, _⟩ := skipLoop_ok t (t.length + 2) false q (some q) hlen (by omega)
+  obtain ⟨y, hy, hcase⟩ := skipLoop_ce_track t _ false q (some q) none r hr
+  have hp : skipSpace t p = .ok r := by rw [hq3, hr]
+  have hq : skipSpace t q = .ok (r.1, y) := hy
+  obtain ⟨r1, x⟩ := r
+  simp only at hcase hp hq
+  rcases hcase with ⟨e1, e2⟩ | ⟨e1, c, e2⟩
+  · subst e1 e2
+    simp only [parseContent]
+    rw [hp, hq]
+    simp only [Res.ok_bind]
+  · subst e1 e2
+    simp only [parseContent]
+    rw [hp, hq]
+    simp only [Res.ok_bind]
+
 end Nstd.Xml
